@@ -185,6 +185,9 @@ func App(op string, s Sort, args ...*Term) *Term {
 			panic("smt.App: nil argument to " + op)
 		}
 	}
+	if r := simplify(op, s, args); r != nil {
+		return r
+	}
 	return mk(op, s, args...)
 }
 
@@ -192,7 +195,7 @@ func Not(a *Term) *Term {
 	if a.Op == "not" {
 		return a.Args[0]
 	}
-	return mk("not", Bool, a)
+	return App("not", Bool, a)
 }
 
 func And(as ...*Term) *Term {
@@ -202,7 +205,7 @@ func And(as ...*Term) *Term {
 	case 1:
 		return as[0]
 	}
-	return mk("and", Bool, as...)
+	return App("and", Bool, as...)
 }
 
 func Or(as ...*Term) *Term {
@@ -212,7 +215,7 @@ func Or(as ...*Term) *Term {
 	case 1:
 		return as[0]
 	}
-	return mk("or", Bool, as...)
+	return App("or", Bool, as...)
 }
 
 func Eq(a, b *Term) *Term {
@@ -222,34 +225,38 @@ func Eq(a, b *Term) *Term {
 	return mk("=", Bool, a, b)
 }
 
-func Ite(cnd, a, b *Term) *Term { return mk("ite", a.S, cnd, a, b) }
+func Ite(cnd, a, b *Term) *Term { return App("ite", a.S, cnd, a, b) }
 
 // ZeroExt / SignExt / Extract build width conversions.
 func ZeroExt(a *Term, to int) *Term {
 	if to == a.S.W {
 		return a
 	}
-	return mk(fmt.Sprintf("(_ zero_extend %d)", to-a.S.W), BV(to), a)
+	return App(fmt.Sprintf("(_ zero_extend %d)", to-a.S.W), BV(to), a)
 }
 
 func SignExt(a *Term, to int) *Term {
 	if to == a.S.W {
 		return a
 	}
-	return mk(fmt.Sprintf("(_ sign_extend %d)", to-a.S.W), BV(to), a)
+	return App(fmt.Sprintf("(_ sign_extend %d)", to-a.S.W), BV(to), a)
 }
 
 func Extract(a *Term, hi, lo int) *Term {
-	return mk(fmt.Sprintf("(_ extract %d %d)", hi, lo), BV(hi-lo+1), a)
+	return App(fmt.Sprintf("(_ extract %d %d)", hi, lo), BV(hi-lo+1), a)
 }
 
 // Emitter writes define-funs for terms into a solver session, once each.
 type Emitter struct {
-	done map[int]bool
-	sb   strings.Builder
+	done   map[int]bool
+	byHash map[[2]uint64]string // structurally equal terms share one definition
+	alias  map[int]string
+	sb     strings.Builder
 }
 
-func NewEmitter() *Emitter { return &Emitter{done: map[int]bool{}} }
+func NewEmitter() *Emitter {
+	return &Emitter{done: map[int]bool{}, byHash: map[[2]uint64]string{}, alias: map[int]string{}}
+}
 
 // Ref returns the SMT-LIB reference for t, emitting definitions as needed into
 // the pending buffer (retrieved with Flush).
@@ -268,6 +275,9 @@ func (e *Emitter) Ref(t *Term) string {
 	}
 	name := fmt.Sprintf("t%d", t.ID)
 	if e.done[t.ID] {
+		if a, ok := e.alias[t.ID]; ok {
+			return a
+		}
 		return name
 	}
 	// iterative post-order to avoid deep recursion on long chains
@@ -294,12 +304,21 @@ func (e *Emitter) Ref(t *Term) string {
 			continue
 		}
 		e.done[tt.ID] = true
+		hk := [2]uint64{tt.H1, tt.H2}
+		if prev, ok := e.byHash[hk]; ok {
+			e.alias[tt.ID] = prev
+			continue
+		}
+		e.byHash[hk] = fmt.Sprintf("t%d", tt.ID)
 		fmt.Fprintf(&e.sb, "(define-fun t%d () %s (%s", tt.ID, tt.S, tt.Op)
 		for _, a := range tt.Args {
 			e.sb.WriteByte(' ')
 			e.sb.WriteString(e.leaf(a))
 		}
 		e.sb.WriteString("))\n")
+	}
+	if a, ok := e.alias[t.ID]; ok {
+		return a
 	}
 	return name
 }
@@ -312,6 +331,9 @@ func (e *Emitter) leaf(a *Term) string {
 		return bvLit(a.Val, a.S.W)
 	case "true", "false":
 		return a.Op
+	}
+	if al, ok := e.alias[a.ID]; ok {
+		return al
 	}
 	return fmt.Sprintf("t%d", a.ID)
 }
